@@ -18,6 +18,22 @@
 using namespace shark;
 using namespace c15;
 
+// objects that live as long as a history (`op ; op ; ...`): trainers (configuration changed through their
+// setters between the steps), models (re-trained, possibly with another shape / with or without offset)
+// and the output arguments of meanvar (which arrive filled with the previous result)
+struct Session{
+	RealVector m, m2, m3, var; RealMatrix cov;
+	Normalizer<RealVector> norm;
+	NormalizeComponentsUnitInterval<> unitInt;
+	NormalizeComponentsUnitVariance<> unitVar0, unitVar1;
+	LinearRegression linreg;
+	NormalizeComponentsWhitening whiten;
+	NormalizeComponentsZCA zca;
+	LinearModel<> lin;
+	std::size_t step;
+	Session(): unitVar0(false), unitVar1(true), linreg(0.0), whiten(1.0), zca(1.0), step(0){}
+};
+
 // ---- plain-loop statistics for the oracle
 static void plainMeanVar(std::vector<std::vector<double> > const& y, std::size_t d, std::vector<double>& m, std::vector<double>& v){
 	std::size_t n = y.size(); m.assign(d, 0.0); v.assign(d, 0.0);
@@ -31,18 +47,27 @@ static bool constantColumn(Table const& T, std::size_t j){
 	return true;
 }
 
-static std::string opMeanVar(Args& A){
+static std::string opMeanVar(Args& A, Session* S){
 	Table T; if(!T.read(A, 0) || !A.done() || T.d == 0) return "bad-op";
 	Out o;
 	UnlabeledData<RealVector> data = T.unlabeled();
-	RealVector m, m2, var; RealMatrix cov;
+	RealVector fm, fm2, fm3, fvar; RealMatrix fcov;
+	// in a history the output arguments still hold the results (and sizes) of the previous step
+	RealVector& m = S ? S->m : fm; RealVector& m2 = S ? S->m2 : fm2; RealVector& m3 = S ? S->m3 : fm3;
+	RealVector& var = S ? S->var : fvar; RealMatrix& cov = S ? S->cov : fcov;
 	fpClear();
 	m = mean(data);
 	meanvar(data, m2, var);
-	RealVector m3; meanvar(data, m3, cov);
+	meanvar(data, m3, cov);
 	bool inexact = fpInexact();
 	o.vec("mean", m); o.vec("var", var); o.mat("cov", cov);
 	if(!closeVec(m, m2, 0) || !closeVec(m, m3, 0)) o.fail("mean-variants-differ");
+	{ RealVector v2 = variance(data); RealMatrix c2 = covariance(data);
+	  if(!sameVec(var, v2) || !sameMat(cov, c2)) o.fail("variance-covariance-wrappers-differ"); }
+	if(S){
+		RealVector gm, gm3, gv; RealMatrix gc; meanvar(data, gm, gv); meanvar(data, gm3, gc);
+		if(!sameVec(m2, gm) || !sameVec(m3, gm3) || !sameVec(var, gv) || !sameMat(cov, gc)) o.fail("reuse-dependent");
+	}
 	// oracle: plain loops + batch-partition independence
 	std::vector<double> pm, pv; plainMeanVar(T.rows, T.d, pm, pv);
 	for(std::size_t j = 0; j < T.d; ++j){
@@ -62,10 +87,11 @@ static std::string opMeanVar(Args& A){
 }
 
 template<class Trainer>
-static std::string normalizerOp(Table const& T, Trainer& trainer, int kind /*0 unit interval, 1 unit variance zero mean, 2 unit variance no offset*/){
+static std::string normalizerOp(Table const& T, Trainer& trainer, int kind /*0 unit interval, 1 unit variance zero mean, 2 unit variance no offset*/, Session* S){
 	Out o;
 	UnlabeledData<RealVector> data = T.unlabeled();
-	Normalizer<RealVector> model;
+	Normalizer<RealVector> freshModel;
+	Normalizer<RealVector>& model = S ? S->norm : freshModel;      // history: the model of the previous step is trained again
 	fpClear();
 	try{ trainer.train(model, data); }
 	catch(shark::Exception const&){ return "exc"; }
@@ -103,39 +129,55 @@ static std::string normalizerOp(Table const& T, Trainer& trainer, int kind /*0 u
 		RealVector off2 = m2.hasOffset() ? m2.offset() : RealVector(T.d, 0.0);
 		if(!closeVec(model.diagonal(), m2.diagonal(), 1e-12) || !closeVec(off, off2, 1e-12)) o.fail("batch-dependent");
 	}
+	if(S){
+		// a freshly constructed model must receive the same bits
+		Normalizer<RealVector> m2; trainer.train(m2, data);
+		if(m2.hasOffset() != model.hasOffset() || !sameVec(model.diagonal(), m2.diagonal()) || (m2.hasOffset() && !sameVec(model.offset(), m2.offset()))) o.fail("reuse-dependent");
+		if(kind == 2 && model.hasOffset()) o.fail("reuse-stale-offset");
+	}
 	return o.line("ok", inexact);
 }
 
-static std::string opUnitVar(Args& A){
+static std::string opUnitVar(Args& A, Session* S){
 	std::size_t zeroMean = A.nat();
 	Table T; if(!T.read(A, 0) || !A.done() || T.d == 0 || zeroMean > 1) return "bad-op";
-	NormalizeComponentsUnitVariance<> trainer(zeroMean == 1);
-	return normalizerOp(T, trainer, zeroMean ? 1 : 2);
+	NormalizeComponentsUnitVariance<> fresh(zeroMean == 1);
+	return normalizerOp(T, S ? (zeroMean ? S->unitVar1 : S->unitVar0) : fresh, zeroMean ? 1 : 2, S);
 }
-static std::string opUnitInt(Args& A){
+static std::string opUnitInt(Args& A, Session* S){
 	Table T; if(!T.read(A, 0) || !A.done() || T.d == 0) return "bad-op";
-	NormalizeComponentsUnitInterval<> trainer;
-	return normalizerOp(T, trainer, 0);
+	NormalizeComponentsUnitInterval<> fresh;
+	return normalizerOp(T, S ? S->unitInt : fresh, 0, S);
 }
 
 // linreg lamNum lamLog2Den k | n d nb sizes | rows of d inputs and k labels
-static std::string opLinReg(Args& A){
+static std::string opLinReg(Args& A, Session* S){
 	long long lamNum = A.next(); std::size_t lamShift = A.nat(); std::size_t k = A.nat();
 	if(A.bad || lamNum < 0 || lamShift > 40 || k == 0 || k > 64) return "bad-op";
-	Table T; if(!T.read(A, k) || !A.done()) return "bad-op";
+	Table T; if(!T.read(A, k, true) || !A.done()) return "bad-op";
 	double lambda = std::ldexp((double)lamNum, -(int)lamShift);
 	std::size_t d = T.d, n = T.n;
 	Out o;
 	std::vector<RealVector> X = T.points(), L = T.cols(d, k);
 	LabeledData<RealVector, RealVector> data = createLabeledDataFromRange(X, L, n);
 	data.repartition(T.sizes);
-	LinearRegression trainer(lambda);
-	LinearModel<> model;
+	LinearRegression freshTrainer(lambda);
+	LinearModel<> freshModel;
+	// history: the trainer of the previous steps with a new regularisation (setter or parameter vector, alternating),
+	// and the model of the previous step (any shape, trained by any of linreg / whiten / zca)
+	LinearRegression& trainer = S ? S->linreg : freshTrainer;
+	LinearModel<>& model = S ? S->lin : freshModel;
+	if(S){ if(S->step++ % 2) trainer.setParameterVector(RealVector(1, lambda)); else trainer.setRegularization(lambda); }
 	fpClear();
 	try{ trainer.train(model, data); }
 	catch(shark::Exception const&){ return "exc"; }
 	bool inexact = fpInexact();
 	RealMatrix W = model.matrix(); RealVector b = model.offset();   // W: k x d
+	if(S){
+		LinearModel<> m2; freshTrainer.train(m2, data);
+		if(!sameMat(W, m2.matrix()) || !sameVec(b, m2.offset())) o.fail("reuse-dependent");
+		if(trainer.regularization() != lambda || trainer.parameterVector().size() != 1 || trainer.parameterVector()(0) != lambda) o.fail("reuse-configuration");
+	}
 	o.mat("W", W); o.vec("b", b);
 	// oracle: gradient of 1/2 sum_i |W x_i + b - l_i|^2 + lambda/2 |W|^2 with plain loops
 	double scale = 1.0;
@@ -169,19 +211,27 @@ static std::string opLinReg(Args& A){
 
 // whiten|zca tNum tLog2Den | table ; covariance of the transformed training data must be t * I
 template<class Trainer>
-static std::string whitenOp(Args& A, bool zca){
+static std::string whitenOp(Args& A, bool zca, Trainer* sessionTrainer, Session* S){
 	long long tNum = A.next(); std::size_t tShift = A.nat();
 	if(A.bad || tShift > 40) return "bad-op";
 	Table T; if(!T.read(A, 0) || !A.done() || T.d == 0) return "bad-op";
 	double target = std::ldexp((double)tNum, -(int)tShift);
 	Out o;
 	UnlabeledData<RealVector> data = T.unlabeled();
-	LinearModel<> model;
+	LinearModel<> freshModel;
+	LinearModel<>& model = S ? S->lin : freshModel;
 	fpClear();
-	try{ Trainer trainer(target); trainer.train(model, data); }
+	try{
+		if(S){ *sessionTrainer = Trainer(target); sessionTrainer->train(model, data); }
+		else{ Trainer trainer(target); trainer.train(model, data); }
+	}
 	catch(shark::Exception const&){ return "exc"; }
 	bool inexact = fpInexact();
 	RealMatrix W = model.matrix(); RealVector b = model.hasOffset() ? model.offset() : RealVector(W.size1(), 0.0);
+	if(S){
+		LinearModel<> m2; Trainer t2(target); t2.train(m2, data);
+		if(m2.hasOffset() != model.hasOffset() || !sameMat(W, m2.matrix()) || (m2.hasOffset() && !sameVec(model.offset(), m2.offset()))) o.fail("reuse-dependent");
+	}
 	o.nat("rank", W.size1()); o.mat("W", W); o.vec("b", b);
 	std::size_t r = W.size1();
 	bool finite = true;
@@ -207,6 +257,18 @@ static std::string whitenOp(Args& A, bool zca){
 		for(std::size_t a = 0; a < T.d; ++a) if(a != pr){ double f = Cx[a][pc] / Cx[pr][pc]; for(std::size_t c = 0; c < T.d; ++c) Cx[a][c] -= f * Cx[pr][c]; }
 	  } }
 	if(!zca && r != rank) o.fail("whitening-rank");
+	// batch-partition independence.  The whitening factor itself is not unique (the pivoted Cholesky decomposition
+	// breaks ties between equal pivots on rounding noise), W^T W = t * Cov^-1 is: compared for regular covariances
+	if(rank == T.d){
+		std::vector<std::vector<std::size_t> > parts = T.otherPartitions();
+		RealMatrix G = prod(trans(W), W);
+		for(std::size_t p = 0; p < parts.size(); ++p){
+			UnlabeledData<RealVector> other = T.unlabeled(parts[p]);
+			LinearModel<> m2; Trainer t2(target); t2.train(m2, other);
+			RealMatrix G2 = prod(trans(m2.matrix()), m2.matrix());
+			if(!closeMat(G, G2, 1e-8) || (zca && !closeMat(W, m2.matrix(), 1e-8))) o.fail("batch-dependent");
+		}
+	}
 	std::vector<std::vector<double> > Cy(r, std::vector<double>(r, 0.0));
 	for(std::size_t a = 0; a < r; ++a){
 		if(!(std::fabs(ym[a]) <= 1e-8 * (1 + wscale * 64))) o.fail("whitening-mean");
@@ -232,22 +294,14 @@ static std::string whitenOp(Args& A, bool zca){
 	return o.line("ok", inexact);
 }
 
-int main(){
-	std::string line;
-	while(std::getline(std::cin, line)){
-		std::vector<std::string> t = vh::tokens(line);
-		if(t.empty()){ std::cout << "@ \n"; continue; }
-		Args A;
-		std::string res;
-		if(!allInt(t, 1, A.a)) res = "bad-op";
-		else if(t[0] == "meanvar") res = opMeanVar(A);
-		else if(t[0] == "unitvar") res = opUnitVar(A);
-		else if(t[0] == "unitint") res = opUnitInt(A);
-		else if(t[0] == "linreg") res = opLinReg(A);
-		else if(t[0] == "whiten") res = whitenOp<NormalizeComponentsWhitening>(A, false);
-		else if(t[0] == "zca") res = whitenOp<NormalizeComponentsZCA>(A, true);
-		else res = "bad-op";
-		std::cout << "@ " << res << std::endl;   // "@ " marks protocol lines (BLAS may print warnings to stdout)
-	}
-	return 0;
+static std::string dispatch(std::string const& op, Args& A, Session* S){
+	if(op == "meanvar") return opMeanVar(A, S);
+	if(op == "unitvar") return opUnitVar(A, S);
+	if(op == "unitint") return opUnitInt(A, S);
+	if(op == "linreg") return opLinReg(A, S);
+	if(op == "whiten") return whitenOp<NormalizeComponentsWhitening>(A, false, S ? &S->whiten : 0, S);
+	if(op == "zca") return whitenOp<NormalizeComponentsZCA>(A, true, S ? &S->zca : 0, S);
+	return "bad-op";
 }
+
+int main(){ return runProtocol<Session>(dispatch); }
